@@ -209,6 +209,31 @@ def handle (d : DState) (line : String) : DState × List String :=
         !(a.all fun x => b.all fun y => x < y) || !(match a with | [x, y] => x ≤ y | _ => true) ||
         !(a.all fun x => day - 1 ≤ z.localDay x && z.localDay x ≤ day + 1)
       (d, [if bad.isEmpty then "regular ok" else s!"regular fail {d0.int! + ((bad.headD 0 : Nat) : Int)}"])
+  | [.atom "parse", kind, item] =>
+      let hexVal (c : Char) : Nat := if c.isDigit then c.toNat - 48 else c.toNat - 87
+      let unhex (h : String) : String :=
+        let cs := h.toList
+        let rec unhexGo : List Char → List UInt8
+          | a :: b :: rest => (UInt8.ofNat (hexVal a * 16 + hexVal b)) :: unhexGo rest
+          | _ => []
+        (String.fromUTF8? (ByteArray.mk (unhexGo cs).toArray)).getD ""
+      let rec toItem : Sx → Item
+        | .list [.atom "int", n] => .int n.int!
+        | .list [.atom "str", h] => .str (unhex h.str)
+        | .list (.atom "list" :: xs) => .list (xs.map toItem)
+        | _ => .list []
+      let items := match toItem item with | .list xs => xs | x => [x]
+      let r := match kind.str with
+        | "weekdays" => getWeekdays items
+        | "days" => getDays items
+        | _ => getMonths items
+      (d, [match r with | .ok l => "ok" ++ String.join (l.map fun x => s!" {x}") | .error e => s!"err {e.name}"])
+  | [.atom "getinstant", now, kind, v] =>
+      let w : When := match kind.str with
+        | "now" => .now | "after" => .after v.int! | "tod" => .tod v.int! | "naive" => .naive v.int! | _ => .aware v.int!
+      (d, [match getInstant d.zone now.int! w with | .ok u => s!"ok {u}" | .error e => s!"err {e.name}"])
+  | [.atom "postd", v] =>
+      (d, [match getPosTimedelta v.int! with | .ok u => s!"ok {u}" | .error e => s!"err {e.name}"])
   | [.atom "sched-reset", now] =>
       ({ d with sched := { now := now.int!, env := d.env }, handles := [] }, [])
   | .atom "op" :: rest =>
